@@ -75,6 +75,7 @@ class Case:
         self.defer_calls = []
         self.envcodes = {}       # value of the tracked environment variable -> small int
         self.how = {}            # (path, order) -> the way that write reached the file system
+        self.inodes = {}         # path -> inode numbers the path had so far (see replace_file)
 
     def envcode(self, value):
         if value not in self.envcodes:
@@ -111,10 +112,19 @@ REPLACE_KINDS = {"inplace": True, "rename": True, "rename_keep": True, "chmod_ke
                  "same_newino": False, "touch": False}
 
 
-def replace_file(path, variant, how):
-    """Apply one of the stat-preserving REPLACE_KINDS to the existing regular file `path`."""
+def replace_file(path, variant, how, seen_inodes=None):
+    """Apply one of the stat-preserving REPLACE_KINDS to the existing regular file `path`.
+
+    `seen_inodes` (a set, updated): inode numbers the path had earlier in this history.  ext4 hands a
+    freed inode number out again at once, so two successive replacements can bring back the very
+    number a FileHash was recorded with -- with mtime, size and mode preserved no stat field differs
+    then.  That is outside the world assumption of props/C03.v (FreshStat.op_honest: the recorded
+    inode number is not given to another file that is moved to the path), so the harness does not
+    produce it: the new file is created while place holders keep the seen numbers busy."""
     import stat as stat_mod
     old = os.stat(path)
+    if seen_inodes is not None:
+        seen_inodes.add(old.st_ino)
     data = open(path, "rb").read()
     if how == "touch":
         os.utime(path, ns=(old.st_atime_ns, old.st_mtime_ns + 1_000_000_000 * (1 + variant % 3)))
@@ -130,13 +140,27 @@ def replace_file(path, variant, how):
         mode ^= 0o111
     elif how != "same_newino":
         raise ValueError(how)
-    with open(tmp, "wb") as fh:
-        fh.write(data)
+    holders = []
+    try:
+        while True:
+            with open(tmp, "wb") as fh:
+                fh.write(data)
+            if seen_inodes is None or os.stat(tmp).st_ino not in seen_inodes:
+                break
+            holders.append(f"{tmp}.hold{len(holders)}")      # keeps that inode number busy
+            os.rename(tmp, holders[-1])
+            if len(holders) > 64:
+                raise RuntimeError("no unused inode number")
+    finally:
+        for h in holders:
+            os.remove(h)
     os.chmod(tmp, mode)
     os.utime(tmp, ns=(old.st_atime_ns, old.st_mtime_ns))
     os.replace(tmp, path)
     new = os.stat(path)
     assert new.st_ino != old.st_ino and new.st_mtime_ns == old.st_mtime_ns and new.st_size == old.st_size, (old, new)
+    if seen_inodes is not None:
+        seen_inodes.add(new.st_ino)
 
 
 def fid(path, paths):
@@ -220,8 +244,9 @@ async def run_case(spec):
                     target.chmod(0o755)
                 if how == "rename":
                     os.replace(target, p)
+                case.inodes.setdefault(path, set()).add(os.stat(path).st_ino)
             else:
-                replace_file(path, variant, how)
+                replace_file(path, variant, how, case.inodes.setdefault(path, set()))
             c = disk_code(path)
             case.order += 1
             case.contents.setdefault(path, []).append((case.order, c))
